@@ -31,7 +31,6 @@ def build(spec):
             else:
                 ic.pop("symmetry", None)
                 s = cls(eos, ic)
-            s.rho0, s.u0, s.p0 = spec["ic"]["density"], spec["ic"]["velocity"], spec["ic"]["pressure"]
             for op, val in spec.get("tune", []):
                 if op == "tol":
                     s.set_new_solver_tolerance(val)
